@@ -3,6 +3,8 @@ package main
 import (
 	"context"
 	"fmt"
+	rconfig "seata.apache.org/seata-go/pkg/remoting/config"
+	sgetty "seata.apache.org/seata-go/pkg/remoting/getty"
 	"strings"
 	"sync"
 	"time"
@@ -218,6 +220,7 @@ func runC19(c *Ctx) {
 		}
 	}
 	runC19Reconnect(c)
+	runC19Route(c)
 }
 
 func b2i(b bool) int {
@@ -367,4 +370,84 @@ func runC19Reconnect(c *Ctx) {
 		}
 	}
 	coord.ResetLog()
+}
+
+// ---- the XID policy through the real client: with sessions open to several coordinators, a request that
+// carries an xid ip:port:id is WRITTEN to the session connected to ip:port (SendSyncRequest -> selectSession
+// -> loadbalance.Select), not only chosen so when the policy function is called by hand
+
+func runC19Route(c *Ctx) {
+	coord := Boot()
+	coord.Script = nil
+	cfg := rconfig.GetSeataConfig()
+	if cfg == nil {
+		return
+	}
+	savedLB := cfg.LoadBalanceType
+	cfg.LoadBalanceType = "XID"
+	defer func() { cfg.LoadBalanceType = savedLB }()
+	addrs := []string{"127.0.0.1:8091", "10.1.0.2:8091", "10.1.0.3:8091"}
+	open := map[string]*FakeSession{}
+	for _, s := range coord.Sessions() {
+		if !s.IsClosed() {
+			open[s.addr] = s
+		}
+	}
+	for _, a := range addrs {
+		if open[a] == nil {
+			open[a] = coord.OpenSessionAt(a)
+		}
+	}
+	defer func() {
+		for _, a := range addrs[1:] {
+			open[a].CloseFromPeer()
+		}
+	}()
+	time.Sleep(30 * time.Millisecond)
+	kinds := []string{"GlobalCommit", "GlobalRollback", "GlobalStatus", "BranchRegister", "BranchReport", "GlobalLockQuery"}
+	n := 0
+	rounds := c.Budget(2, 20)
+	for round := 0; round < rounds; round++ {
+		for _, kind := range kinds {
+			for _, a := range addrs {
+				n++
+				cid := fmt.Sprintf("route-%d", n)
+				if !c.Want(cid) {
+					continue
+				}
+				xid := fmt.Sprintf("%s:%d", a, 880000+n)
+				var body interface{}
+				switch kind {
+				case "GlobalCommit":
+					body = message.GlobalCommitRequest{AbstractGlobalEndRequest: message.AbstractGlobalEndRequest{Xid: xid}}
+				case "GlobalRollback":
+					body = message.GlobalRollbackRequest{AbstractGlobalEndRequest: message.AbstractGlobalEndRequest{Xid: xid}}
+				case "GlobalStatus":
+					body = message.GlobalStatusRequest{AbstractGlobalEndRequest: message.AbstractGlobalEndRequest{Xid: xid}}
+				case "BranchRegister":
+					body = message.BranchRegisterRequest{Xid: xid, ResourceId: "res", LockKey: "t:1", BranchType: branch.BranchTypeAT}
+				case "BranchReport":
+					body = message.BranchReportRequest{Xid: xid, BranchId: 5, Status: branch.BranchStatusPhaseoneDone, BranchType: branch.BranchTypeAT}
+				default:
+					body = message.GlobalLockQueryRequest{BranchRegisterRequest: message.BranchRegisterRequest{Xid: xid, ResourceId: "res", LockKey: "t:1", BranchType: branch.BranchTypeAT}}
+				}
+				coord.ResetLog()
+				crash := safeCall(func() { sgetty.GetGettyRemotingClient().SendSyncRequest(body) })
+				got := "nowhere"
+				for _, l := range coord.Snapshot() {
+					if l.Xid == xid {
+						for addr, s := range open {
+							if s.id == l.Session {
+								got = addr
+							}
+						}
+					}
+				}
+				c.Out.Case(cid, "C19", "skip", "skip")
+				c.Out.Oracle(cid, crash == "" && got == a, "xid_affinity_through_the_client", fmt.Sprintf("%s for xid %s was written to the session connected to %s (sessions open to %v) crash=%s", kind, xid, got, addrs, crash))
+				c.Out.Tag(cid, "nontrivial=1")
+				c.Out.Count("route." + kind)
+			}
+		}
+	}
 }
